@@ -89,19 +89,20 @@ theorem nonneg_sound {a : Lin} (h : a.nonneg = true) (vals : List Nat) : 0 ≤ a
 /-! ### abstract states -/
 
 def Sat (vals : List Nat) (h0 : Int) : AState → Int → Prop
-  | some f, h => h0 + f.eval vals ≤ h
-  | none, h => 0 ≤ h
+  | .rel f, h => h0 + f.eval vals ≤ h
+  | .abs a, h => (a : Int) ≤ h
 
 theorem sat_ok {vals : List Nat} {h0 h : Int} {needA dipA : Nat} {loA : Option (Int × Int)} {st : AState}
     (hok : okState dipA loA st = true) (hA : (needA : Int) ≤ h0) (hd : dipA ≤ needA) (hs : Sat vals h0 st h) :
     0 ≤ h ∧ (loA.isSome → h0 - dipA ≤ h) := by
   cases st with
-  | none =>
+  | abs a =>
     simp only [okState] at hok
-    refine ⟨hs, ?_⟩
+    simp only [Sat] at hs
+    refine ⟨by omega, ?_⟩
     intro h1
     cases loA <;> simp_all
-  | some f =>
+  | rel f =>
     simp only [okState] at hok
     have := nonneg_sound hok vals
     simp only [eval_add, eval_const] at this
@@ -169,61 +170,18 @@ theorem stepCall_sound (hwf : ∀ cb, (eff cb).wf = true) {needA : Nat} {st st' 
     have : (((argLin c.arg).eval vals).toNat : Int) = (argLin c.arg).eval vals := Int.toNat_of_nonneg hn4
     rw [Int.natCast_add, Int.natCast_mul, this]
   cases st with
-  | none =>
-    simp only at hstep
-    split at hstep
-    · rename_i hz
-      cases hstep
-      simp only [Sat] at hs ⊢
-      simp only [Lin.isZero, Bool.and_eq_true, decide_eq_true_eq] at hz
-      -- need form is identically zero
-      have hzero : ((Lin.const ((eff c.cb).need0 : Int)).add ((argLin c.arg).scale ((eff c.cb).needN : Int))).eval vals = 0 := by
-        simp only [Lin.eval]
-        rw [dot_zero _ _ hz.2, hz.1]; rfl
-      simp only [eval_add, eval_const, eval_scale] at hzero
-      simp only [stepH, hcb]
-      by_cases hr : (eff c.cb).reset = true
-      · simp [hr]
-      · simp only [hr, Bool.false_eq_true, ↓reduceIte]
-        by_cases hb : (eff c.cb).bump = true
-        · simp only [hb, ↓reduceIte]
-          refine ⟨_, rfl, ?_⟩
-          have := Int.natCast_nonneg ci.aux
-          omega
-        · simp only [hb, Bool.false_eq_true, ↓reduceIte]
-          have hle : (((eff c.cb).need0 + (eff c.cb).needN * ci.n : Nat) : Int) ≤ h := by rw [hnat]; omega
-          simp only [hle, ↓reduceIte]
-          -- need0 = 0 and needN * n = 0, so by wf the deltas are >= 0
-          have hnn : (0 : Int) ≤ ((eff c.cb).need0 : Int) := Int.natCast_nonneg _
-          have hmm : (0 : Int) ≤ ((eff c.cb).needN : Int) * (argLin c.arg).eval vals :=
-            Int.mul_nonneg (Int.natCast_nonneg _) hn4
-          have e0 : ((eff c.cb).need0 : Int) = 0 := by omega
-          have eN : ((eff c.cb).needN : Int) * (argLin c.arg).eval vals = 0 := by omega
-          have dNn : 0 ≤ (eff c.cb).dN * (argLin c.arg).eval vals := by
-            rcases Int.mul_eq_zero.mp eN with hz1 | hz2
-            · have : 0 ≤ (eff c.cb).dN := by omega
-              exact Int.mul_nonneg this hn4
-            · rw [hz2]; simp
-          have tNn : 0 ≤ (eff c.cb).tN * (argLin c.arg).eval vals := by
-            rcases Int.mul_eq_zero.mp eN with hz1 | hz2
-            · have : 0 ≤ (eff c.cb).tN := by omega
-              exact Int.mul_nonneg this hn4
-            · rw [hz2]; simp
-          split
-          · refine ⟨_, rfl, ?_⟩; rw [hn3]; omega
-          · refine ⟨_, rfl, ?_⟩; rw [hn2]; omega
-    · exact absurd hstep (by simp)
-  | some f =>
+  | abs a =>
     simp only at hstep
     split at hstep
     · exact absurd hstep (by simp)
-    rename_i hneed
-    simp only [Bool.not_eq_true, Bool.not_eq_eq_eq_not, Bool.not_true, Bool.not_eq_false] at hneed
-    have hneed' := nonneg_sound hneed vals
-    simp only [eval_sub, eval_add, eval_const, eval_scale] at hneed'
+    rename_i hc
+    simp only [Bool.not_eq_eq_eq_not, Bool.not_true, Bool.not_eq_false, Bool.and_eq_true, decide_eq_true_eq] at hc
+    obtain ⟨⟨⟨hN, hdN⟩, htN⟩, hna⟩ := hc
     simp only [Sat] at hs
-    have hle : (((eff c.cb).need0 + (eff c.cb).needN * ci.n : Nat) : Int) ≤ h := by rw [hnat]; omega
-    simp only [stepH, hcb]
+    have hna' : ((eff c.cb).need0 : Int) ≤ (a : Int) := Int.ofNat_le.mpr hna
+    have hle : (((eff c.cb).need0 + (eff c.cb).needN * ci.n : Nat) : Int) ≤ h := by
+      rw [hN]; simp; omega
+    simp only [stepH, hcb, hle, ↓reduceIte, hdN, htN, Int.zero_mul, Int.add_zero]
     split at hstep
     · rename_i hr
       cases hstep
@@ -239,7 +197,48 @@ theorem stepCall_sound (hwf : ∀ cb, (eff cb).wf = true) {needA : Nat} {st st' 
       have := Int.natCast_nonneg ci.aux
       omega
     rename_i hb
-    simp only [hb, Bool.false_eq_true, ↓reduceIte, hle]
+    simp only [hb, Bool.false_eq_true, ↓reduceIte]
+    cases hstep
+    by_cases hct : (eff c.cb).canThrow = true
+    · simp only [hct, ↓reduceIte, Bool.true_and]
+      split
+      · refine ⟨_, rfl, ?_⟩
+        simp only [Sat]
+        omega
+      · refine ⟨_, rfl, ?_⟩
+        simp only [Sat]
+        omega
+    · simp only [hct, Bool.false_eq_true, ↓reduceIte, Bool.false_and]
+      refine ⟨_, rfl, ?_⟩
+      simp only [Sat]
+      omega
+  | rel f =>
+    simp only at hstep
+    split at hstep
+    · exact absurd hstep (by simp)
+    rename_i hneed
+    simp only [Bool.not_eq_true, Bool.not_eq_eq_eq_not, Bool.not_true, Bool.not_eq_false] at hneed
+    have hneed' := nonneg_sound hneed vals
+    simp only [eval_sub, eval_add, eval_const, eval_scale] at hneed'
+    simp only [Sat] at hs
+    have hle : (((eff c.cb).need0 + (eff c.cb).needN * ci.n : Nat) : Int) ≤ h := by rw [hnat]; omega
+    simp only [stepH, hcb, hle, ↓reduceIte]
+    split at hstep
+    · rename_i hr
+      cases hstep
+      simp [hr, Sat]
+    rename_i hr
+    simp only [hr, Bool.false_eq_true, ↓reduceIte]
+    split at hstep
+    · rename_i hb
+      cases hstep
+      simp only [hb, ↓reduceIte]
+      refine ⟨_, rfl, ?_⟩
+      simp only [Sat]
+      have := Int.natCast_nonneg ci.aux
+      omega
+    rename_i hb
+    simp only [hb, Bool.false_eq_true, ↓reduceIte]
     split at hstep
     · rename_i hct
       cases hstep
@@ -328,13 +327,157 @@ theorem finalOk_bound {vals' : List Nat} {h h1 : Int} {lo : Option (Int × Int)}
   intro c0 c1 hlo
   subst hlo
   cases stp with
-  | none => simp [finalOk] at hfin
-  | some g =>
+  | abs a => simp [finalOk] at hfin
+  | rel g =>
     simp only [finalOk] at hfin
     have := nonneg_sound hfin vals'
     simp only [eval_sub, eval_const, eval_scale] at this
     simp only [Sat] at hs
     omega
+
+/-- entry requirement of a child, from the parent's check -/
+theorem child_entry {vals : List Nat} {h0 h : Int} {needA dipA pos : Nat} {st st1 : AState} {B : NT} {isP : Bool}
+    (hst : stepItem sig eff needA dipA pos st (if isP then Item.pnt B else Item.nt B) = some st1)
+    (hA : (needA : Int) ≤ h0) (hs : Sat vals h0 st h) : ((sig B).need : Int) ≤ h := by
+  cases st with
+  | abs a =>
+    cases isP <;>
+    · simp only [stepItem, Bool.false_eq_true, ↓reduceIte] at hst
+      split at hst
+      · exact absurd hst (by simp)
+      rename_i hz
+      simp only [Bool.not_eq_eq_eq_not, Bool.not_true, decide_eq_false_iff_not, Nat.not_le, Bool.not_eq_true,
+        decide_eq_true_eq] at hz
+      simp only [Sat] at hs
+      have : ((sig B).need : Int) ≤ (a : Int) := Int.ofNat_le.mpr (by omega)
+      omega
+  | rel f =>
+    cases isP <;>
+    · simp only [stepItem, Bool.false_eq_true, ↓reduceIte] at hst
+      split at hst
+      · exact absurd hst (by simp)
+      rename_i hneed
+      simp only [Bool.not_eq_eq_eq_not, Bool.not_true, Bool.not_eq_false, Bool.and_eq_true] at hneed
+      have := nonneg_sound hneed.1 vals
+      simp only [eval_sub, eval_add, eval_const] at this
+      simp only [Sat] at hs
+      omega
+
+/-- state of the parent after a *complete* child -/
+theorem after_child {vals : List Nat} {h0 h h1 : Int} {needA dipA pos : Nat} {st st1 : AState} {B : NT} {v : Int}
+    (hst : stepItem sig eff needA dipA pos st (Item.nt B) = some st1)
+    (hs : Sat vals h0 st h) (hnn1 : 0 ≤ h1) (hv : v = ((vals.getD pos 0 : Nat) : Int))
+    (hb : ∀ c0 c1, (sig B).lo = some (c0, c1) → h + c0 + c1 * v ≤ h1) : Sat vals h0 st1 h1 := by
+  have hvnn : 0 ≤ v := by rw [hv]; exact Int.natCast_nonneg _
+  cases st with
+  | abs a =>
+    simp only [stepItem] at hst
+    split at hst
+    · exact absurd hst (by simp)
+    simp only [Sat] at hs
+    cases hlo : (sig B).lo with
+    | none =>
+      simp only [hlo, Option.some.injEq] at hst
+      subst hst; simpa [Sat] using hnn1
+    | some cc =>
+      obtain ⟨c0, c1⟩ := cc
+      simp only [hlo] at hst
+      have hb' := hb c0 c1 hlo
+      split at hst
+      · rename_i hc1
+        cases hst
+        have : 0 ≤ c1 * v := Int.mul_nonneg hc1 hvnn
+        simp only [Sat]
+        omega
+      · cases hst; simpa [Sat] using hnn1
+  | rel f =>
+    simp only [stepItem] at hst
+    split at hst
+    · exact absurd hst (by simp)
+    cases hlo : (sig B).lo with
+    | none =>
+      simp only [hlo, Option.some.injEq] at hst
+      subst hst; simpa [Sat] using hnn1
+    | some cc =>
+      obtain ⟨c0, c1⟩ := cc
+      simp only [hlo, Option.some.injEq] at hst
+      subst hst
+      have hb' := hb c0 c1 hlo
+      simp only [Sat, eval_add, eval_const, eval_unit]
+      simp only [Sat] at hs
+      rw [← hv]
+      omega
+
+/-- state of the parent after a possibly *abandoned* child -/
+theorem after_partial {vals : List Nat} {h0 h h1 : Int} {needA dipA pos : Nat} {st st1 : AState} {B : NT}
+    (hst : stepItem sig eff needA dipA pos st (Item.pnt B) = some st1)
+    (hs : Sat vals h0 st h) (hnn1 : 0 ≤ h1)
+    (hb : (sig B).lo.isSome → h - (sig B).dip ≤ h1) : Sat vals h0 st1 h1 := by
+  cases st with
+  | abs a =>
+    simp only [stepItem] at hst
+    split at hst
+    · exact absurd hst (by simp)
+    simp only [Sat] at hs
+    cases hlo : (sig B).lo with
+    | none =>
+      simp only [hlo, Option.some.injEq] at hst
+      subst hst; simpa [Sat] using hnn1
+    | some cc =>
+      simp only [hlo, Option.some.injEq] at hst
+      subst hst
+      have := hb (by simp [hlo])
+      simp only [Sat]
+      omega
+  | rel f =>
+    simp only [stepItem] at hst
+    split at hst
+    · exact absurd hst (by simp)
+    cases hlo : (sig B).lo with
+    | none =>
+      simp only [hlo, Option.some.injEq] at hst
+      subst hst; simpa [Sat] using hnn1
+    | some cc =>
+      simp only [hlo, Option.some.injEq] at hst
+      subst hst
+      have := hb (by simp [hlo])
+      simp only [Sat, eval_sub, eval_const]
+      simp only [Sat] at hs
+      omega
+
+/-- an abandoned child keeps the parent's floor -/
+theorem partial_floor {vals : List Nat} {h0 h h1 : Int} {needA dipA pos : Nat} {loA : Option (Int × Int)}
+    {st st1 st' : AState} {B : NT} {rest : List (Item CB NT)} {isP : Bool}
+    (hst : stepItem sig eff needA dipA pos st (if isP then Item.pnt B else Item.nt B) = some st1)
+    (hokst : okState dipA loA st = true)
+    (hrest : checkItems sig eff needA dipA loA (pos + 1) rest st1 = some st')
+    (hs : Sat vals h0 st h) (hb : (sig B).lo.isSome → h - (sig B).dip ≤ h1) :
+    loA.isSome → h0 - dipA ≤ h1 := by
+  intro hloA
+  have hok1 := checkItems_ok sig eff hrest
+  cases st with
+  | abs a =>
+    simp only [okState] at hokst
+    cases loA <;> simp_all
+  | rel f =>
+    cases isP <;>
+    · simp only [stepItem, Bool.false_eq_true, ↓reduceIte] at hst
+      split at hst
+      · exact absurd hst (by simp)
+      rename_i hneed
+      simp only [Bool.not_eq_eq_eq_not, Bool.not_true, Bool.not_eq_false, Bool.and_eq_true] at hneed
+      have hdp := nonneg_sound hneed.2 vals
+      simp only [eval_sub, eval_add, eval_const] at hdp
+      simp only [Sat] at hs
+      cases hlo : (sig B).lo with
+      | none =>
+        simp only [hlo, Option.some.injEq] at hst
+        subst hst
+        simp only [okState] at hok1
+        cases loA <;> simp_all
+      | some cc =>
+        have := hb (by simp [hlo])
+        omega
 
 theorem run_sound {G : List (Prod CB NT)} (hG : ∀ p ∈ G, lbProd sig eff p = true) (hwf : ∀ cb, (eff cb).wf = true) :
     ∀ {b : Bool} {vals : List Nat} {pos : Nat} {items : List (Item CB NT)} {tr : List (CallInst CB)},
@@ -377,165 +520,48 @@ theorem run_sound {G : List (Prod CB NT)} (hG : ∀ p ∈ G, lbProd sig eff p = 
   | @nt b vals pos rest tr1 tr2 p vals' hp _ hattr _ ihc ihr =>
     intro needA dipA loA h0 h st st' hc hA hD hs
     obtain ⟨st1, hst, hrest⟩ := checkItems_cons sig eff hc
-    have hokst := checkItems_ok sig eff hc
-    obtain ⟨hnn0, _⟩ := sat_ok hokst hA hD hs
-    -- the child production is locally balanced
     have hlb := hG p hp
     simp only [lbProd, Bool.and_eq_true, decide_eq_true_eq] at hlb
     obtain ⟨⟨_, hdipB⟩, hlb2⟩ := hlb
-    cases hci : checkItems sig eff (sig p.lhs).need (sig p.lhs).dip (sig p.lhs).lo 0 p.items (some Lin.zero) with
+    cases hci : checkItems sig eff (sig p.lhs).need (sig p.lhs).dip (sig p.lhs).lo 0 p.items (.rel Lin.zero) with
     | none => simp [hci] at hlb2
     | some stp =>
       simp only [hci] at hlb2
-      -- entry requirement of the child
-      have hneedB : ((sig p.lhs).need : Int) ≤ h := by
-        cases st with
-        | none =>
-          simp only [stepItem] at hst
-          split at hst
-          · rename_i hz; simp [hz]; exact hnn0
-          · exact absurd hst (by simp)
-        | some f =>
-          simp only [stepItem] at hst
-          split at hst
-          · exact absurd hst (by simp)
-          rename_i hneed
-          simp only [Bool.not_eq_true, Bool.not_eq_eq_eq_not, Bool.not_true, Bool.not_eq_false, Bool.and_eq_true] at hneed
-          have this := nonneg_sound hneed.1 vals
-          have hdp := nonneg_sound hneed.2 vals
-          simp only [eval_sub, eval_add, eval_const] at hdp
-          simp only [eval_sub, eval_add, eval_const] at this
-          simp only [Sat] at hs
-          omega
+      have hneedB : ((sig p.lhs).need : Int) ≤ h := child_entry sig eff (isP := false) hst hA hs
       obtain ⟨h1, hr1, hnn1, hsat1, _⟩ :=
-        ihc (sig p.lhs).need (sig p.lhs).dip (sig p.lhs).lo h h (some Lin.zero) stp hci hneedB hdipB (by simp [Sat])
+        ihc (sig p.lhs).need (sig p.lhs).dip (sig p.lhs).lo h h (.rel Lin.zero) stp hci hneedB hdipB (by simp [Sat])
       have hb := finalOk_bound hlb2 (hsat1 rfl)
-      -- state of the parent after the child
-      have hs1 : Sat vals h0 st1 h1 := by
-        cases st with
-        | none =>
-          simp only [stepItem] at hst
-          split at hst
-          · cases hst; exact hnn1
-          · exact absurd hst (by simp)
-        | some f =>
-          simp only [stepItem] at hst
-          split at hst
-          · exact absurd hst (by simp)
-          cases hlo : (sig p.lhs).lo with
-          | none =>
-            simp only [hlo, Option.some.injEq] at hst
-            subst hst; exact hnn1
-          | some cc =>
-            obtain ⟨c0, c1⟩ := cc
-            simp only [hlo, Option.some.injEq] at hst
-            subst hst
-            have hb := hb c0 c1 hlo
-            simp only [Sat, eval_add, eval_const, eval_unit]
-            simp only [Sat] at hs
-            rw [hattr]
-            omega
+      have hs1 : Sat vals h0 st1 h1 := after_child sig eff hst hs hnn1 hattr.symm hb
       obtain ⟨h2, hr2, hnn2, hsat2, hpart2⟩ := ihr needA dipA loA h0 h1 st1 st' hrest hA hD hs1
       exact ⟨h2, by simp [runH_append, hr1, hr2], hnn2, hsat2, hpart2⟩
   | @ntPart vals pos rest tr p vals' hp _ ihc =>
     intro needA dipA loA h0 h st st' hc hA hD hs
     obtain ⟨st1, hst, hrest⟩ := checkItems_cons sig eff hc
     have hokst := checkItems_ok sig eff hc
-    have hok1 := checkItems_ok sig eff hrest
-    obtain ⟨hnn0, _⟩ := sat_ok hokst hA hD hs
     have hlb := hG p hp
     simp only [lbProd, Bool.and_eq_true, decide_eq_true_eq] at hlb
     obtain ⟨⟨_, hdipB⟩, hlb2⟩ := hlb
-    cases hci : checkItems sig eff (sig p.lhs).need (sig p.lhs).dip (sig p.lhs).lo 0 p.items (some Lin.zero) with
+    cases hci : checkItems sig eff (sig p.lhs).need (sig p.lhs).dip (sig p.lhs).lo 0 p.items (.rel Lin.zero) with
     | none => simp [hci] at hlb2
     | some stp =>
-      cases st with
-      | none =>
-        simp only [stepItem] at hst
-        split at hst
-        · rename_i hz
-          have hneedB : ((sig p.lhs).need : Int) ≤ h := by simp [hz]; exact hnn0
-          obtain ⟨h1, hr1, hnn1, _, _⟩ :=
-            ihc (sig p.lhs).need (sig p.lhs).dip (sig p.lhs).lo h h (some Lin.zero) stp hci hneedB hdipB (by simp [Sat])
-          refine ⟨h1, hr1, hnn1, fun hb => absurd hb (by simp), ?_⟩
-          intro hlo
-          simp only [okState] at hokst
-          cases loA <;> simp_all
-        · exact absurd hst (by simp)
-      | some f =>
-        simp only [stepItem] at hst
-        split at hst
-        · exact absurd hst (by simp)
-        rename_i hneed
-        simp only [Bool.not_eq_true, Bool.not_eq_eq_eq_not, Bool.not_true, Bool.not_eq_false, Bool.and_eq_true] at hneed
-        have hn := nonneg_sound hneed.1 vals
-        have hdp := nonneg_sound hneed.2 vals
-        simp only [eval_sub, eval_add, eval_const] at hdp
-        simp only [eval_sub, eval_add, eval_const] at hn
-        simp only [Sat] at hs
-        have hneedB : ((sig p.lhs).need : Int) ≤ h := by omega
-        obtain ⟨h1, hr1, hnn1, _, hpart1⟩ :=
-          ihc (sig p.lhs).need (sig p.lhs).dip (sig p.lhs).lo h h (some Lin.zero) stp hci hneedB hdipB (by simp [Sat])
-        refine ⟨h1, hr1, hnn1, fun hb => absurd hb (by simp), ?_⟩
-        intro hloA
-        cases hlo : (sig p.lhs).lo with
-        | none =>
-          simp only [hlo, Option.some.injEq] at hst
-          subst hst
-          simp only [okState] at hok1
-          cases loA <;> simp_all
-        | some cc =>
-          have := hpart1 (by simp [hlo])
-          omega
+      have hneedB : ((sig p.lhs).need : Int) ≤ h := child_entry sig eff (isP := false) hst hA hs
+      obtain ⟨h1, hr1, hnn1, _, hpart1⟩ :=
+        ihc (sig p.lhs).need (sig p.lhs).dip (sig p.lhs).lo h h (.rel Lin.zero) stp hci hneedB hdipB (by simp [Sat])
+      exact ⟨h1, hr1, hnn1, fun hb => absurd hb (by simp),
+        partial_floor sig eff (isP := false) hst hokst hrest hs hpart1⟩
   | @pnt b vals pos rest tr1 tr2 p vals' hp _ _ ihc ihr =>
     intro needA dipA loA h0 h st st' hc hA hD hs
     obtain ⟨st1, hst, hrest⟩ := checkItems_cons sig eff hc
-    have hokst := checkItems_ok sig eff hc
-    obtain ⟨hnn0, _⟩ := sat_ok hokst hA hD hs
     have hlb := hG p hp
     simp only [lbProd, Bool.and_eq_true, decide_eq_true_eq] at hlb
     obtain ⟨⟨_, hdipB⟩, hlb2⟩ := hlb
-    cases hci : checkItems sig eff (sig p.lhs).need (sig p.lhs).dip (sig p.lhs).lo 0 p.items (some Lin.zero) with
+    cases hci : checkItems sig eff (sig p.lhs).need (sig p.lhs).dip (sig p.lhs).lo 0 p.items (.rel Lin.zero) with
     | none => simp [hci] at hlb2
     | some stp =>
-      have hkey : ∃ h1, runH eff h tr1 = some h1 ∧ Sat vals h0 st1 h1 := by
-        cases st with
-        | none =>
-          simp only [stepItem] at hst
-          split at hst
-          · rename_i hz
-            cases hst
-            have hneedB : ((sig p.lhs).need : Int) ≤ h := by simp [hz]; exact hnn0
-            obtain ⟨h1, hr1, hnn1, _, _⟩ :=
-              ihc (sig p.lhs).need (sig p.lhs).dip (sig p.lhs).lo h h (some Lin.zero) stp hci hneedB hdipB (by simp [Sat])
-            exact ⟨h1, hr1, hnn1⟩
-          · exact absurd hst (by simp)
-        | some f =>
-          simp only [stepItem] at hst
-          split at hst
-          · exact absurd hst (by simp)
-          rename_i hneed
-          simp only [Bool.not_eq_true, Bool.not_eq_eq_eq_not, Bool.not_true, Bool.not_eq_false, Bool.and_eq_true] at hneed
-          have hn := nonneg_sound hneed.1 vals
-          have hdp := nonneg_sound hneed.2 vals
-          simp only [eval_sub, eval_add, eval_const] at hdp
-          simp only [eval_sub, eval_add, eval_const] at hn
-          simp only [Sat] at hs
-          have hneedB : ((sig p.lhs).need : Int) ≤ h := by omega
-          obtain ⟨h1, hr1, hnn1, _, hpart1⟩ :=
-            ihc (sig p.lhs).need (sig p.lhs).dip (sig p.lhs).lo h h (some Lin.zero) stp hci hneedB hdipB (by simp [Sat])
-          refine ⟨h1, hr1, ?_⟩
-          cases hlo : (sig p.lhs).lo with
-          | none =>
-            simp only [hlo, Option.some.injEq] at hst
-            subst hst; exact hnn1
-          | some cc =>
-            simp only [hlo, Option.some.injEq] at hst
-            subst hst
-            have := hpart1 (by simp [hlo])
-            simp only [Sat, eval_sub, eval_const]
-            omega
-      obtain ⟨h1, hr1, hs1⟩ := hkey
+      have hneedB : ((sig p.lhs).need : Int) ≤ h := child_entry sig eff (isP := true) hst hA hs
+      obtain ⟨h1, hr1, hnn1, _, hpart1⟩ :=
+        ihc (sig p.lhs).need (sig p.lhs).dip (sig p.lhs).lo h h (.rel Lin.zero) stp hci hneedB hdipB (by simp [Sat])
+      have hs1 : Sat vals h0 st1 h1 := after_partial sig eff hst hs hnn1 hpart1
       obtain ⟨h2, hr2, hnn2, hsat2, hpart2⟩ := ihr needA dipA loA h0 h1 st1 st' hrest hA hD hs1
       exact ⟨h2, by simp [runH_append, hr1, hr2], hnn2, hsat2, hpart2⟩
 
